@@ -108,7 +108,10 @@ def script_fn(r, B, s):
     s.conf(conf)
     base = r["id"] * 1000
     c = calls[0]
-    s.call(base, c["fn"], c["path"], c["argv"], c["envp"], -1, 2)        # warm-up: libc one-time caches (NSS, tz, stdio)
+    # warm-up: libc one-time caches (NSS, tz data, stdio buffers).  Two calls: one with a fixed non-empty command line (so that
+    # the message is not empty and the output, its path template and the ident really run) and one with the generated shape
+    s.call(base + 999, c["fn"], b"/bin/warmup", [b"warmup", b"argument"], [b"E=1"], -1, 2)
+    s.call(base, c["fn"], c["path"], c["argv"], c["envp"], -1, 2)
     s.raw("automark 1")
     for k, c in enumerate(calls[1:], 1):
         s.call(base + k, c["fn"], c["path"], c["argv"], c["envp"], -1, 2)
